@@ -56,8 +56,9 @@ def match_known(v, findings):
 
 
 def write_replay(prop, spec, rec, v, refs, min_info):
-    os.makedirs(os.path.join(VERIF, "replays"), exist_ok=True)
-    path = os.path.join(VERIF, "replays", f"{prop}-{spec.get('seed')}.json")
+    rdir = os.environ.get("VERIF_REPLAY_DIR") or os.path.join(VERIF, "replays")
+    os.makedirs(rdir, exist_ok=True)
+    path = os.path.join(rdir, f"{prop}-{spec.get('seed')}.json")
     keys = set()
     for _, ops in model.spec_clients(spec):
         keys.update(k for k in model.client_keys(ops, spec) if k)
@@ -200,7 +201,7 @@ def write_evidence(prop, tier, master, batch, violations, known_hits, wall, extr
     return ev
 
 
-def run_check(prop, tier, master, params=None, runs=None, verbose=True):
+def run_check(prop, tier, master, params=None, runs=None, verbose=True, evidence=True):
     t0 = time.monotonic()
     findings, _ = load_known()
     batch = Batch(prop, tier, master, params=params, verbose=verbose)
@@ -241,7 +242,7 @@ def run_check(prop, tier, master, params=None, runs=None, verbose=True):
         for cls in sorted(by_class)[:3]:
             i, v = min(by_class[cls], key=lambda iv: (len(json.dumps(batch.specs[iv[0]])) if iv[0] is not None else 0))
             if i is None:
-                path = os.path.join(VERIF, "replays", f"{prop}-ref-{hashlib.sha256(v['key'].encode()).hexdigest()[:8]}.json")
+                path = os.path.join(os.environ.get("VERIF_REPLAY_DIR") or os.path.join(VERIF, "replays"), f"{prop}-ref-{hashlib.sha256(v['key'].encode()).hexdigest()[:8]}.json")
                 os.makedirs(os.path.dirname(path), exist_ok=True)
                 json.dump({"property": prop, "violation": v, "class": list(cls)}, open(path, "w"), indent=1)
                 replay_paths.append(path)
@@ -260,7 +261,8 @@ def run_check(prop, tier, master, params=None, runs=None, verbose=True):
             batch.say(f"  {mv['clause']} on {mv['op']} key={mv['key']}: {mv['detail'][:300]}")
             batch.say(f"  minimised {info['ops_before']} -> {info['ops_after']} ops, {info['threads_before']} -> {info['threads_after']} threads, {mz.tried} candidates")
     wall = time.monotonic() - t0
-    write_evidence(prop, tier, master, batch, [v for _, v in fresh], sorted(set(known_hits)), wall)
+    if evidence:
+        write_evidence(prop, tier, master, batch, [v for _, v in fresh], sorted(set(known_hits)), wall)
     if batch.harness_errors:
         for i, st, err in batch.harness_errors[:5]:
             print(f"HARNESS-ERROR run={i} seed={batch.specs[i]['seed']} {st}: {err[-1500:]}", flush=True)
@@ -302,6 +304,7 @@ def main(argv=None):
     ap.add_argument("--setup", action="store_true")
     ap.add_argument("--selftest")
     ap.add_argument("--quiet", action="store_true")
+    ap.add_argument("--no-evidence", action="store_true")
     a = ap.parse_args(argv)
     master = int(os.environ.get("VERIF_SEED", "1") or 1)
     try:
@@ -318,7 +321,7 @@ def main(argv=None):
             return 2
         if a.replay:
             return replay(a.prop, a.replay)
-        return run_check(a.prop, a.tier, master, runs=a.runs, verbose=not a.quiet)
+        return run_check(a.prop, a.tier, master, runs=a.runs, verbose=not a.quiet, evidence=not a.no_evidence)
     except HarnessFailure as e:
         print(f"HARNESS-ERROR {e}", flush=True)
         return 2
